@@ -377,4 +377,68 @@ theorem go_render_accessor_eq (r : Root) (i : Nat) (T : String) (vs : List Value
   · simp [accessorText]
   · intro k row _; simp
 
+def parseGenericText (T : String) : List String :=
+  ["\n\n// ParseGeneric calls TypedEnum.Parse but returns the result\n// in the generic genum.Enum interface. Which is useful when you are only able to work with\n// the un-typed interface.\nfunc (e ",
+    T, ") ParseGeneric(input any) (genum.Enum, error) {\n\treturn Parse", T, "(input)\n}"]
+
+theorem go_render_parseGeneric_eq (r : Root) (i : Nat) (T : String) (vs : List Value) (hv : r.values[i]? = some vs) :
+    renderSec r i T secParseGeneric = some (parseGenericText T) := by
+  have h1 := values_at r i vs hv
+  tsimp [secParseGeneric, h1, parseGenericText]
+
+/-! ### the statements of C04 / C05 / C12, for the extracted template and the translated values -/
+
+theorem sortedValues_u64 (f : FileDef) (t : String) : ∀ v ∈ sortedValues f t, U64 v := by
+  intro v hv
+  obtain ⟨c, _, _, rfl⟩ := mem_sortedValues.mp hv
+  exact ofConst_u64 c
+
+/-- what the generator hands to the template for a definition file: per type the sorted constants -/
+def rootOf (o : Options) (f : FileDef) (types : List String) (traits : List (List TraitDesc)) : Root :=
+  { opts := o, types := types, values := types.map (sortedValues f), traits := traits }
+
+/-- **C04 for the template as extracted.**  For every accepted definition file, every list of types
+handed to the generator, every option setting: executing the extracted sections of enumTemplate.gotmpl
+for type number `i` - `ValueDeduplicatedSet` being the TRANSLATED one - writes the value table, the
+`String` switch and `IsValid` of a `GenOut` `g` (table rows, switch rows, which `IsValid` branch) such
+that `g.string` of every defined value is its primary name, `Undefined<T>:<n>` otherwise, `g.isValid` is
+true exactly on the defined values, and `g.values` is their ascending list. -/
+theorem go_template_string_primary (o : Options) (f : FileDef) (types : List String) (traits : List (List TraitDesc))
+    (i : Nat) (t : String) (k : IntKind) (hi : types[i]? = some t) (h : Accepted f t k) :
+    ∃ g : GenOut,
+      renderSec (rootOf o f types traits) i t secTable = some (tableText t g.stringValues) ∧
+      renderSec (rootOf o f types traits) i t secStringValues = some (stringValuesText t g.stringValues) ∧
+      renderSec (rootOf o f types traits) i t secString = some (stringText g.tname g.table) ∧
+      renderSec (rootOf o f types traits) i t secIsValid = some (isValidText t (decide (g.nAll > bsThreshold))) ∧
+      (∀ e, Defined f t e → IsPrimary f t e (g.string e)) ∧
+      (∀ e, ¬ Defined f t e → g.string e = undefinedString t e) ∧
+      (∀ e, g.isValid e = true ↔ Defined f t e) ∧
+      IsAscDistinctOf f t g.values := by
+  have hv : (rootOf o f types traits).values[i]? = some (sortedValues f t) := by simp [rootOf, hi]
+  have hu := sortedValues_u64 f t
+  refine ⟨genType o f t, ?_, ?_, ?_, ?_, Genum.C04.string_primary o h, Genum.C04.string_undefined o h,
+    Genum.C04.isValid_iff_defined o h, Genum.C04.values_sorted_distinct o h⟩
+  · exact go_render_values_eq _ i t _ hv hu
+  · exact go_render_stringValues_eq _ i t _ hv hu
+  · exact go_render_string_eq _ i t _ hv hu
+  · exact go_render_isValid_eq _ i t _ hv
+
+/-- **the `Parse` switch and the accessors of `genFull`** (the object of C05 / C12): whenever the model's
+generator accepts a definition, executing the extracted `Parse<T>` and accessor sections on its values
+and trait descriptors writes exactly the cases, the lower-case block and the accessor rows of its result. -/
+theorem go_template_genFull (r : Root) (f : FileDef) (t : TypeDecl) (i : Nat) (g : GenFull)
+    (h : genFull r.opts f t = .ok g)
+    (hv : r.values[i]? = some (sortedValues f t.name)) (ht : r.traits[i]? = some g.traits) :
+    renderSec r i t.name secParse = some (parseText g.base.tname g.base.cases g.base.lowerCases) ∧
+    renderSec r i t.name secAccessor = some (g.traits.flatMap (accessorText g.base.tname)) ∧
+    renderSec r i t.name secString = some (stringText g.base.tname g.base.table) ∧
+    renderSec r i t.name secIsValid = some (isValidText g.base.tname (decide (g.base.nAll > bsThreshold))) := by
+  obtain ⟨ts, _, hg, _⟩ := genFull_ok h
+  subst hg
+  refine ⟨?_, ?_, ?_, ?_⟩
+  · exact go_render_parse_eq r i t.name _ ts hv ht
+  · exact go_render_accessor_eq r i t.name _ ts hv ht
+  · exact go_render_string_eq r i t.name _ hv (sortedValues_u64 f t.name)
+  · exact go_render_isValid_eq r i t.name _ hv
+
 end C04TmplTie
